@@ -17,7 +17,7 @@
    matches + 1 under g; matchAll: matches + 1 under g, else 1; search: 1; split: one per probed position).
 
    What is NOT modelled: regular-expression engine semantics.  The matcher is defined by brute force for a menu of
-   eleven patterns built from one-character classes, ordered alternation, one greedy star, ^ / $ and one capture
+   twelve patterns built from one-character classes, ordered alternation, one greedy star, ^ / $ and one capture
    group (operator MatchAt: ordered alternatives, backtracking into the star), over subjects that are sequences of
    four code-unit classes:  a, b, H (a high surrogate) and L (a low surrogate); "H L" adjacent is a surrogate pair
    = ONE character under u (class X, two code units wide), two characters otherwise; lone H / lone L are
@@ -63,7 +63,7 @@ VARIABLES pat,        \* "none" before construction, then the pattern name
           act         \* last action with arguments and SPECIFIED result (output only, hidden by VIEW)
 vars == <<pat, flags, li, act>>
 
-AllPats == {"a", "ab", "(?:)", "b*", "a|b", ".", "^a", "a$", "astral", "loneH", "(a)|b"}
+AllPats == {"a", "ab", "(?:)", "b*", "b{0,2}", "a|b", ".", "^a", "a$", "astral", "loneH", "(a)|b"}
 Units == {"a", "b", "H", "L"}
 Subjects == UNION {[1..k -> Units] : k \in 0..MaxLen} \cup Extra
 UserLI == {-1, 0, 1, 2, 9}
@@ -97,7 +97,8 @@ ToLen(v) == IF v < 0 THEN 0 ELSE v
 \* The abstract matcher.  A pattern is a sequence of alternatives (tried in order), an alternative a sequence of
 \* atoms: one character of a class set, a greedy star over a class set, or an assertion.
 C1(s) == [t |-> "c", s |-> s]
-Star(s) == [t |-> "star", s |-> s]
+Star(s) == [t |-> "star", s |-> s, n |-> -1]
+Rep(s, n) == [t |-> "star", s |-> s, n |-> n]             \* the counted quantifier {0,n}: greedy, at most n characters
 Bol == [t |-> "bol", s |-> {}]
 Eol == [t |-> "eol", s |-> {}]
 AnyChar(u) == IF u THEN {"a", "b", "H", "L", "X"} ELSE {"a", "b", "H", "L"}
@@ -106,6 +107,7 @@ Alts(p, u) ==
     [] p = "ab"     -> << <<C1({"a"}), C1({"b"})>> >>
     [] p = "(?:)"   -> << <<>> >>
     [] p = "b*"     -> << <<Star({"b"})>> >>
+    [] p = "b{0,2}" -> << <<Rep({"b"}, 2)>> >>
     [] p = "a|b"    -> << <<C1({"a"})>>, <<C1({"b"})>> >>
     [] p = "."      -> << <<C1(AnyChar(u))>> >>
     [] p = "^a"     -> << <<Bol, C1({"a"})>> >>
@@ -131,7 +133,8 @@ MSeq(at, k, S, i, u) ==
        CASE a.t = "c"    -> IF i < Len(S) /\ Ch(S, i, u).c \in a.s THEN MSeq(at, k + 1, S, i + Ch(S, i, u).w, u) ELSE -1
          [] a.t = "bol"  -> IF i = 0 THEN MSeq(at, k + 1, S, i, u) ELSE -1
          [] a.t = "eol"  -> IF i = Len(S) THEN MSeq(at, k + 1, S, i, u) ELSE -1
-         [] a.t = "star" -> LET r == Reach(S, i, a.s, u)
+         [] a.t = "star" -> LET r0 == Reach(S, i, a.s, u)
+                                r == IF a.n >= 0 /\ Len(r0) > a.n + 1 THEN SubSeq(r0, 1, a.n + 1) ELSE r0
                                 ok == {n \in 1..Len(r) : MSeq(at, k + 1, S, r[n], u) # -1}
                             IN IF ok = {} THEN -1 ELSE MSeq(at, k + 1, S, r[Max(ok)], u)
 \* the matcher at index i: end index e (-1 = failure) and the captures
